@@ -17,8 +17,8 @@ structure StepOut where
 def parseStep (tok : String) : Option StepOut :=
   if !tok.startsWith "R " then none
   else match tok.splitOn " | " with
-    | [a, b, c] => some { res := (a.drop 2).toString, events := (if b.isEmpty then [] else b.splitOn ";"),
-                          setEvents := (if c.isEmpty then [] else c.splitOn ";") }
+    | [a, b, c, _] => some { res := (a.drop 2).toString, events := (if b.isEmpty then [] else b.splitOn ";"),
+                             setEvents := (if c.isEmpty then [] else c.splitOn ";") }
     | _ => none
 
 /-- conditions of an `S` event as (type, status, reason, obsGen, msg) -/
